@@ -25,6 +25,7 @@ func genC02(seed int64, tier string) *Scenario {
 	rng := rand.New(rand.NewSource(seed))
 	sc := &Scenario{Prop: "C02", Seed: seed}
 	sc.Sched = genSched(rng, tier, true)
+	sc.Sched.MaxSteps = 15000
 	sc.HC = HCKnobs{Interval: time.Duration(pick(rng, 200, 500, 1000)) * time.Millisecond, Timeout: time.Duration(pick(rng, 300, 500, 1000)) * time.Millisecond}
 	gens := 2 + rng.Intn(3)
 	op := ActorSpec{Name: "op"}
@@ -66,6 +67,9 @@ func genC02(seed int64, tier string) *Scenario {
 			}
 			if rng.Intn(2) == 0 {
 				alignOp(rng, &o, deployTriggers, gens*2)
+			}
+			if rng.Intn(4) == 0 {
+				holdOp(rng, &o, []string{"deploy.healthy", "router.install", "deploy.beforeDrain", "drain.begin", "drain.marked", "drain.end", "deploy.done", "cmd.ret"})
 			}
 			o.Sim = simDirective(time.Duration(rng.Intn(4))*oddMs(40, rng.Intn(400)), rng.Intn(60), "")
 			if rollout && rng.Intn(2) == 0 {
@@ -199,7 +203,7 @@ func (ix *stepIdx) reqStep(req, point string) int {
 }
 
 func reqOverlapsSwap(ix *stepIdx, q *Response, gens []genInfo) bool {
-	routed := ix.reqStep(q.ReqID, "router.routed")
+	routed := ix.reqStep(q.ReqID, "router.serve")
 	if routed == 0 {
 		routed = q.Call
 	}
@@ -219,42 +223,39 @@ func reqOverlapsSwap(ix *stepIdx, q *Response, gens []genInfo) bool {
 }
 
 // classifyProxyError derives the causal signature of a proxy-generated error
-// from the step events: which window the request fell into.
+// from the step events: which window the request fell into. The route lookup
+// runs in the step released at "router.serve"; the table swap in the step
+// released at "router.install"; a target is marked draining in the step
+// released at "drain.begin".
 func classifyProxyError(r *RunResult, ix *stepIdx, q *Response) string {
-	routedEv := 0
-	for _, e := range ix.byReq[q.ReqID] {
-		if e.Info == "router.routed" {
-			routedEv = e.Seq
-		}
-	}
-	if routedEv == 0 {
-		routedEv = q.Call
+	lookup := ix.reqStep(q.ReqID, "router.serve")
+	if lookup == 0 {
+		lookup = q.Call
 	}
 	claim := ix.reqStep(q.ReqID, "lb.claim")
 	if claim == 0 {
 		claim = q.Ret
 	}
-	// Was there a table swap (router.install step) between route lookup and claim?
 	swapBetween, drainBeforeClaim := false, false
 	installSeq := 0
 	for _, e := range ix.all {
-		if e.Info == "router.install" && e.Seq > routedEv && e.Seq < claim {
+		if e.Info == "router.install" && e.Seq > lookup && e.Seq < claim {
 			swapBetween = true
 			installSeq = e.Seq
 		}
 	}
 	if swapBetween {
 		for _, e := range ix.all {
-			if e.Info == "drain.marked" && e.Seq > installSeq && e.Seq < claim {
+			if e.Info == "drain.begin" && e.Seq > installSeq && e.Seq < claim {
 				drainBeforeClaim = true
 			}
 		}
 	}
 	switch {
 	case q.Status == 503 && swapBetween && drainBeforeClaim:
-		return "stale-lb:routed<swap<drain-start<claim:503"
+		return "stale-lb:lookup<swap<drain-start<claim:503"
 	case q.Status == 200 && swapBetween:
-		return "stale-lb:routed<swap<claim:served-by-replaced"
+		return "stale-lb:lookup<swap<claim:served-by-replaced"
 	}
 	return fmt.Sprintf("status=%d", q.Status)
 }
